@@ -19,11 +19,21 @@ RTE_CTOR_S    = '_ZN4bloc12RuntimeErrorC2ENS_6EXC_RTEPKc'
 EVAL_REPLACE = [VCALL_VALUE, V_MOVE_ASSIGN, V_CLEAR, CTX_ALLOCATE]
 EVAL_CUT = EVAL_REPLACE + [RTE_CTOR, RTE_CTOR_S]
 
+OPSYM = {'op_band': '({0} and {1})', 'op_bior': '({0} or {1})', 'op_bxor': '({0} xor {1})', 'op_bnot': '(not {0})', 'op_and': '({0} & {1})',
+         'op_ior': '({0} | {1})', 'op_xor': '({0} ^ {1})', 'op_not': '(~{0})', 'op_pop': '({0} << {1})', 'op_pus': '({0} >> {1})',
+         'op_add': '({0} + {1})', 'op_sub': '({0} - {1})', 'op_mul': '({0} * {1})', 'op_div': '({0} / {1})', 'op_mod': '({0} % {1})',
+         'op_exp': '({0} ** {1})', 'op_neg': '(-{0})', 'op_pos': '(+{0})', 'op_eq': '({0} == {1})', 'op_ne': '({0} != {1})',
+         'op_lt': '({0} < {1})', 'op_le': '({0} <= {1})', 'op_gt': '({0} > {1})', 'op_ge': '({0} >= {1})'}
+UNARY = ('op_bnot', 'op_not', 'op_neg', 'op_pos')
+
 def op(name, cls, props, contract=None, **kw):
     """a binary/unary operator's value()"""
     mg = '_ZNK4bloc%d%s5valueERNS_7ContextE' % (len(cls), cls)
     j = dict(id=name, src='blocc/operator/%s.cpp' % name, contract=contract or (name + '.c'), enforce=mg, roots=[mg],
-             replace=list(EVAL_REPLACE), cut=list(EVAL_CUT), props=props, pretty='bloc::%s::value' % cls, canaries=['normal', 'exceptional'])
+             replace=list(EVAL_REPLACE), cut=list(EVAL_CUT), props=props, pretty='bloc::%s::value' % cls, canaries=['normal', 'exceptional'],
+             replay=dict(kind='evalnode', headers=['blocc/operator/%s.h' % name], mirror_class=cls, children=(1 if name in UNARY else 2),
+                         construct=('new bloc::%s(kids[0])' if name in UNARY else 'new bloc::%s(kids[0], kids[1])') % cls,
+                         script=OPSYM.get(name)))
     j.update(kw)
     return j
 
